@@ -41,8 +41,9 @@ def bounds(tier):
             "comment_placements": "none / each single line boundary / all boundaries",
             "sweep": "one character at a time: %d values 'x<c>y' + continuation line ' x<c>y' under field A (c = printable "
                      "ASCII U+0021..U+007E and %d non-ASCII letters) and %d field names 'X<c>Y' with value 'v' (c = "
-                     "printable ASCII except ':') and the two-field paragraphs '<c>Y: v', 'Z: w' (c neither '#' nor '-'); forms x {plain, comments at all boundaries} and the armor variants"
-                     % (len(sweep_value_chars()), len(SWEEP_NON_ASCII), len(sweep_name_chars())),
+                     "printable ASCII except ':') and the two-field paragraphs '<c>Y: v', 'Z: w' (c neither '#' nor '-'); forms x {plain, comments at all boundaries} and the armor variants; plus %d marker lines of the neighbouring layers spelled in full (%s) as "
+                     "first line, continuation line, value after an empty first line, twice in one value, followed by a second field"
+                     % (len(sweep_value_chars()), len(SWEEP_NON_ASCII), len(sweep_name_chars()), len(MARKER_LINES), ", ".join(repr(m) for m in MARKER_LINES)),
             "blank_lines": {"line_shapes": BLANK_LINES,
                             "leading": "all %d sequences of 0..2 such lines before the first paragraph" % len(blank_seqs(0, 2)),
                             "separators": "all %d sequences of 1..3 such lines between two paragraphs" % len(blank_seqs(1, 3)),
